@@ -36,7 +36,8 @@ def main():
     pid, wt = sys.argv[1], sys.argv[2]
     checks = sys.argv[3:] or [pid]
     name = os.path.basename(wt.rstrip("/")).replace("wt-", "")
-    sid = sys.argv[2].rstrip("/").split("wt-")[-1]
+    bn = os.path.basename(sys.argv[2].rstrip("/"))
+    sid = bn.split("wt-")[-1] if bn.startswith("wt-") else (bn.split("wt2-")[-1] + "b" if bn.startswith("wt2-") else bn)
     patch = os.path.join(wt, "seed.patch")
     if not os.path.isfile(patch) or os.path.getsize(patch) == 0:
         print("no seed.patch in", wt)
